@@ -259,6 +259,7 @@ class Run:
         """executes seq on q with before/after snapshots; returns list of per-call outcomes"""
         viol = []
         done = []
+        exported = {}          # the coefficient arrays to_vmec() leaves on the object (documented output of the export): no OTHER method may touch them afterwards
         for spec in seq:
             m = spec['m']
             before = snapshot(q)
@@ -270,6 +271,14 @@ class Run:
             self.res['distribution'][m] = self.res['distribution'].get(m, 0) + 1
             if status == 'raised':
                 self.res['raised'][m] = self.res['raised'].get(m, 0) + 1
+            if m == 'to_vmec':
+                exported = {k: after[k][1] for k in ('RBC', 'ZBS', 'RBS', 'ZBC') if k in after} if status == 'ok' else {}
+            else:
+                for k, c in exported.items():
+                    if k not in after or after[k][1] != c:
+                        viol.append(dict(key=k, what='%s changed the array %s that an earlier to_vmec() left on the object' % (m, k), method=m))
+                        exported = {}
+                        break
             changed = set()
             for k, (i0, c0, _) in before.items():
                 if k not in after:
@@ -469,6 +478,16 @@ def main():
                 seqf = [sp for sp in seqf if sp['m'] in ENTRY and hasattr(qf, sp['m'])]
                 res['violations'] += R.run_sequence(qf, srcf, seqf, set(qf.__dict__))
                 res['configs'] += 1
+        except Exception:
+            pass
+        try:
+            srcv = dict(cfg=dict(rc=[1.0, 0.09], zs=[0.0, -0.09], nfp=2, etabar=0.95, order='r2', B2c=-0.7, p2=-600000.0, I2=0.3, nphi=15))
+            qv = build_src(srcv)
+            seqv = [dict(m='to_vmec', args=[{'__tmp__': 'input.fixedv'}], kw=dict(r=0.05, ntheta=6)),
+                    dict(m='get_boundary', kw=dict(r=0.07, ntheta=8, nphi=10, ntheta_fourier=8, mpol=3, ntor=4)),
+                    dict(m='Frenet_to_cylindrical', args=[0.06], kw=dict(ntheta=5)), dict(m='B_mag', args=[0.05, 0.3, 0.4])]
+            res['violations'] += R.run_sequence(qv, srcv, seqv, set(qv.__dict__))
+            res['configs'] += 1
         except Exception:
             pass
         thorough = a.tier == 'thorough'
